@@ -133,6 +133,13 @@ theorem c15_success_iff (cfg : Cfg) (ext : Ext) (hext : ExtOK ext) (p : SVal) (h
       · right; simpa [hap] using hb
       · left; rfl
 
+/-- a unit key after a valid one: rejected by both, with the same class; a NaN key likewise -/
+example : inScope C03.progBad = true ∧ hasSomeKey C03.progBad = false ∧
+    toValue {} ext0 C03.progBad = .error .keyMustBeAString ∧ serCompact ext0 C03.progBad = .error .keyMustBeAString ∧
+    toValue { po := true } ext0 (.map none [(.f64 0x7ff8000000000000, .unit), (.unit, .unit)]) = .error .floatKeyMustBeFinite ∧
+    serCompact ext0 (.map none [(.f64 0x7ff8000000000000, .unit), (.unit, .unit)]) = .error .floatKeyMustBeFinite :=
+  ⟨rfl, rfl, rfl, rfl, rfl, rfl⟩
+
 /-- **C15 (errors).** Where the 128-bit exception does not apply, the two serializers fail together *with
     the same error class* (`KeyMustBeAString` / `FloatKeyMustBeFinite`, decided by the first offending key
     in serialisation order). -/
@@ -253,6 +260,11 @@ example : progB.wf = true ∧ inScope progB = true ∧ hasSomeKey progB = false 
     toValue { po := true } ext0 progB = .ok (.obj [([0x62], .num (.neg (-3))),
       ([0x61], .arr [.num (.pos 7), .arr [.num (.pos 255)]]), ([0x30], .obj [([0x56], .obj [])])]) := by
   refine ⟨rfl, rfl, rfl, rfl, by decide +kernel, rfl, rfl, rfl⟩
+
+/-- … and that value is the one the image of the widened `progB` denotes -/
+example : (match image ext0 (widenF32 false progB) with | .ok d => valueOfImage {} d | .error _ => none) =
+    some (.obj [([0x30], .obj [([0x56], .obj [])]), ([0x61], .arr [.num (.pos 7), .arr [.num (.pos 255)]]),
+      ([0x62], .num (.neg (-3)))]) := by rfl
 
 /-- **C15 (agreement with the text) — partial.** If `to_value` succeeds on a well-formed program, then
     `to_string` of the f32-widened program succeeds, its output is an RFC 8259 `value` with a syntax tree
